@@ -516,6 +516,8 @@ Fixpoint dq_run (d : deque) (a : alloc_st) (ops : list dq_op) : res (list dq_out
   end.
 
 (** The ideal object: a list, front first. *)
+(** [getN] guarded by a length test, so that an absurd index is never converted to [nat] *)
+Definition nthN (l : list N) (i : N) : option N := if i <? lenN l then getN l i else None.
 Definition ins (l : list N) (i x : N) : list N := firstnN i l ++ x :: skipnN i l.
 Definition del (l : list N) (i : N) : list N := firstnN i l ++ skipnN (i + 1) l.
 Definition repl (l : list N) (i x : N) : list N := firstnN i l ++ x :: skipnN (i + 1) l.
@@ -528,13 +530,13 @@ Definition spec_step (l : list N) (o : dq_op) : dq_out * list N :=
   | OAddFirst x => (DOut CC_OK [], x :: l)
   | OAddLast x => (DOut CC_OK [], l ++ [x])
   | OAddAt x i => if i <? lenN l then (DOut CC_OK [], ins l i x) else (DOut CC_ERR_OUT_OF_RANGE [], l)
-  | OReplaceAt x i => match getN l i with
+  | OReplaceAt x i => match nthN l i with
                       | Some old => (DOut CC_OK [old], repl l i x)
                       | None => (DOut CC_ERR_OUT_OF_RANGE [], l) end
   | ORemove x => match find_index l x 0 with
                  | Some i => (DOut CC_OK [x], del l i)
                  | None => (DOut CC_ERR_OUT_OF_RANGE [], l) end
-  | ORemoveAt i => match getN l i with
+  | ORemoveAt i => match nthN l i with
                    | Some v => (DOut CC_OK [v], del l i)
                    | None => (DOut CC_ERR_OUT_OF_RANGE [], l) end
   | ORemoveFirst => match l with x :: t => (DOut CC_OK [x], t) | [] => (DOut CC_ERR_OUT_OF_RANGE [], []) end
@@ -542,7 +544,7 @@ Definition spec_step (l : list N) (o : dq_op) : dq_out * list N :=
                    | [] => (DOut CC_ERR_OUT_OF_RANGE [], [])
                    | _ => (DOut CC_OK [last l 0], removelast l) end
   | ORemoveAll => (DOut CC_OK [], [])
-  | OGetAt i => match getN l i with Some v => (DOut CC_OK [v], l) | None => (DOut CC_ERR_OUT_OF_RANGE [], l) end
+  | OGetAt i => match nthN l i with Some v => (DOut CC_OK [v], l) | None => (DOut CC_ERR_OUT_OF_RANGE [], l) end
   | OGetFirst => match l with x :: _ => (DOut CC_OK [x], l) | [] => (DOut CC_ERR_OUT_OF_RANGE [], l) end
   | OGetLast => match l with [] => (DOut CC_ERR_OUT_OF_RANGE [], l) | _ => (DOut CC_OK [last l 0], l) end
   | OTrim => (DOut CC_OK [], l)
@@ -570,9 +572,26 @@ Fixpoint spec_run (l : list N) (ops : list dq_op) (fails : list bool) : list dq_
 
 (** The ideal cursor used for the iterator operations: position in the list and the removed flag. *)
 Definition spec_iter_next (l : list N) (it : dq_iter) : stat * option N * dq_iter :=
-  match getN l (it_index it) with
+  match nthN l (it_index it) with
   | Some v => (CC_OK, Some v, {| it_index := it_index it + 1; it_last_removed := false |})
   | None => (CC_ITER_END, None, it)
+  end.
+(** remove the element yielded last (position [index - 1]); the cursor steps back *)
+Definition spec_iter_remove (l : list N) (it : dq_iter) : stat * option N * list N * dq_iter :=
+  if it_last_removed it then (CC_ERR_VALUE_NOT_FOUND, None, l, it) else
+  match nthN l (wsub (it_index it) 1) with
+  | Some v => (CC_OK, Some v, del l (wsub (it_index it) 1), {| it_index := wsub (it_index it) 1; it_last_removed := true |})
+  | None => (CC_ERR_OUT_OF_RANGE, None, l, it)
+  end.
+(** insert before the element that the next [next] would yield (cc_deque_add_at's range: index < size) *)
+Definition spec_iter_add (l : list N) (it : dq_iter) (x : N) : stat * list N * dq_iter :=
+  if it_index it <? lenN l
+  then (CC_OK, ins l (it_index it) x, {| it_index := it_index it + 1; it_last_removed := it_last_removed it |})
+  else (CC_ERR_OUT_OF_RANGE, l, it).
+Definition spec_iter_replace (l : list N) (it : dq_iter) (x : N) : stat * option N * list N :=
+  match nthN l (wsub (it_index it) 1) with
+  | Some v => (CC_OK, Some v, repl l (wsub (it_index it) 1) x)
+  | None => (CC_ERR_OUT_OF_RANGE, None, l)
   end.
 
 (** What the public API shows of a deque (used by the driver and by the observation lemmas). *)
